@@ -835,3 +835,296 @@ def opname(repo, out):
         check_update(chk, effs, 'inplace', 'Add', ps[1], _val_flat_of(ps[2]))
         check_returns(chk, effs, 'none')
         chk.ok(fn.node, f'self.asarray()[{ps[1]}] += {ps[2]}.flat')
+
+
+# --------------------------------------------------------------------------- alias (complex-step gate)
+_DATA_ATTRS = ('view', 'flat', '_data')
+CS = 'self._under_complex_step'
+
+
+def _spine(e):
+    """Nodes of the access chain of e from the top down (Attribute / Subscript / method Call)."""
+    out = []
+    while True:
+        out.append(e)
+        if isinstance(e, ast.Attribute):
+            e = e.value
+        elif isinstance(e, ast.Subscript):
+            e = e.value
+        elif isinstance(e, ast.Call) and isinstance(e.func, ast.Attribute):
+            e = e.func
+        else:
+            return out
+
+
+def data_chains(e):
+    """Maximal access chains in e that read a data attribute (view/flat/_data)."""
+    found = []
+
+    def rec(n):
+        if isinstance(n, (ast.Attribute, ast.Subscript)) or \
+                (isinstance(n, ast.Call) and isinstance(n.func, ast.Attribute)):
+            sp = _spine(n)
+            if any(isinstance(x, ast.Attribute) and x.attr in _DATA_ATTRS for x in sp):
+                found.append(n)
+                for x in sp:   # arguments and indices hang off the spine
+                    if isinstance(x, ast.Subscript):
+                        rec(x.slice)
+                    elif isinstance(x, ast.Call):
+                        for a in x.args:
+                            rec(a)
+                        for k in x.keywords:
+                            rec(k.value)
+                return
+        for c in ast.iter_child_nodes(n):
+            rec(c)
+    if e is not None:
+        rec(e)
+    return found
+
+
+def real_wrapped(chain):
+    """True if a `.real` projection sits above the data attribute on the chain."""
+    seen_real = False
+    for x in _spine(chain):
+        if isinstance(x, ast.Attribute):
+            if x.attr == 'real':
+                seen_real = True
+            elif x.attr in _DATA_ATTRS:
+                return seen_real
+    return False
+
+
+def has_real(e):
+    return e is not None and any(isinstance(n, ast.Attribute) and n.attr == 'real' for n in ast.walk(e))
+
+
+def _ev_exprs(ev):
+    return [x for x in (ev.a, ev.b) if isinstance(x, ast.AST)]
+
+
+def cs_gate(chk):
+    """Compare the complex-step and the real side of a method path by path.
+
+    Returns {pc: (events under complex step, events otherwise)} or None (verdict emitted).
+    """
+    fn = chk.fn
+    key = _K(CS)
+    try:
+        on = paths(fn, {key: True})
+        off = paths(fn, {key: False})
+    except Unsup as u:
+        chk.unsure(u.node, f'not analysable: {u.why}')
+        return None
+    d_on = {frozenset(s.pc): s for s in on}
+    d_off = {frozenset(s.pc): s for s in off}
+    if set(d_on) != set(d_off) or len(d_on) != len(on) or len(d_off) != len(off):
+        chk.unsure(fn.node, 'the two sides of the complex-step gate branch on different conditions')
+        return None
+    n_data = 0
+    for pc, s_on in d_on.items():
+        s_off = d_off[pc]
+        if len(s_on.events) != len(s_off.events) or \
+                any(a.kind != b.kind or a.op != b.op for a, b in zip(s_on.events, s_off.events)):
+            chk.bad(fn.node, 'with and without complex step the method performs different operations '
+                    f'(condition {sorted(pc)})', 'gate-shape')
+            return None
+        for a, b in zip(s_on.events, s_off.events):
+            for x in _ev_exprs(a):
+                if has_real(x):
+                    chk.bad(a.stmt, f'under complex step `{astx.src(x)}` takes `.real`: the imaginary part is '
+                            'dropped, named access no longer aliases the complex array asarray() exposes',
+                            'gate-cs-real')
+                    return None
+                n_data += len(data_chains(x))
+            for x in _ev_exprs(b):
+                for c in data_chains(x):
+                    if not real_wrapped(c):
+                        chk.bad(b.stmt, f'without complex step `{astx.src(c)}` exposes the complex storage '
+                                'instead of its `.real` view (asarray() returns the real view)', 'gate-real')
+                        return None
+            xa, xb = _ev_exprs(a), _ev_exprs(b)
+            if len(xa) != len(xb):
+                chk.bad(a.stmt, 'the two sides of the complex-step gate differ in shape', 'gate-shape')
+                return None
+            for p, q in zip(xa, xb):
+                if astx.dump(_strip_real(p)) != astx.dump(_strip_real(q)):
+                    ca = [astx.dump(_strip_real(c)) for c in data_chains(p)]
+                    cb = [astx.dump(_strip_real(c)) for c in data_chains(q)]
+                    if ca != cb:
+                        chk.bad(b.stmt, f'complex-step side reads `{astx.src(p)}` but the real side reads '
+                                f'`{astx.src(q)}`: they must differ by the `.real` projection only', 'gate-differs')
+                    else:
+                        chk.unsure(b.stmt, f'`{astx.src(p)}` vs `{astx.src(q)}` differ in more than `.real`')
+                    return None
+    if not n_data:
+        chk.unsure(fn.node, 'no data access found under the complex-step gate')
+        return None
+    return {pc: (d_on[pc].events, d_off[pc].events) for pc in d_on}
+
+
+def _unwrap_copy(e):
+    """(inner, True) if e is a recognised copy of inner, else (e, False)."""
+    if isinstance(e, ast.Call):
+        if isinstance(e.func, ast.Attribute) and e.func.attr == 'copy' and not e.args and not e.keywords:
+            return e.func.value, True
+        if astx.call_name(e) in _COPY_FUNCS and len(e.args) == 1:
+            return e.args[0], True
+    return e, False
+
+
+def _last_return(events):
+    r = [e for e in events if e.kind == 'return']
+    return r[-1] if r else None
+
+
+@rule('C33.alias', floor=11)
+def alias(repo, out):
+    """Named access and asarray() expose the same storage; complex-step gates differ by `.real` only."""
+    # generators: only the gate
+    for qn in ('Vector.values', 'Vector.items', 'Vector._abs_item_iter'):
+        fn = repo.func(VEC, qn)
+        chk = Chk(out, fn, qn.split('.')[1])
+        g = cs_gate(chk)
+        if g is not None:
+            chk.ok(fn.node, f'{len(g)} path(s): real side = complex side with `.real` applied to every data read')
+
+    # asarray(copy) and _get_data()
+    for qn, has_copy in (('DefaultVector.asarray', True), ('DefaultVector._get_data', False)):
+        fn = repo.func(DVEC, qn)
+        chk = Chk(out, fn, qn.split('.')[1])
+        g = cs_gate(chk)
+        if g is None:
+            continue
+        chk.ok(fn.node, f'{len(g)} path(s): `.real` view unless under complex step')
+        chk = Chk(out, fn, qn.split('.')[1])
+        ps = params(fn)
+        flagsets = [({}, None)]
+        if has_copy:
+            if len(ps) != 2:
+                chk.unsure(fn.node, 'signature is not (self, copy=False)')
+                continue
+            d = default_of(fn, ps[1])
+            if not (isinstance(d, ast.Constant) and d.value is False):
+                chk.bad(fn.node, f'`{ps[1]}` must default to False: every in-place operation relies on '
+                        'asarray() returning the live array', 'asarray-default')
+                continue
+            flagsets = [({_K(ps[1]): True}, True), ({_K(ps[1]): False}, False)]
+        for fl, want_copy in flagsets:
+            fl = dict(fl)
+            fl[_K(CS)] = True
+            try:
+                sts = paths(fn, fl)
+            except Unsup as u:
+                chk.unsure(u.node, u.why)
+                break
+            if len(sts) != 1 or _last_return(sts[0].events) is None or \
+                    any(e.kind != 'return' for e in sts[0].events):
+                chk.unsure(fn.node, 'not a pure selection of the returned array')
+                break
+            r = _last_return(sts[0].events)
+            inner, copied = _unwrap_copy(r.a) if r.a is not None else (None, False)
+            if inner is None or astx.path(inner) != 'self._data':
+                if r.a is not None and self_kind(r.a) is None and 'self' in astx.names(r.a):
+                    chk.unsure(r.stmt, f'returns `{astx.src(r.a)}`')
+                else:
+                    chk.bad(r.stmt, f'returns `{astx.src(r.a)}` instead of self._data', 'asarray-source')
+                break
+            if want_copy is True and not copied:
+                chk.bad(r.stmt, 'copy=True returns the live array: callers that snapshot the vector '
+                        'see later updates', 'asarray-copy')
+                break
+            if want_copy in (False, None) and copied:
+                chk.bad(r.stmt, 'returns a copy although no copy was requested: every in-place operation '
+                        'is lost', 'asarray-copy')
+                break
+        chk.ok(fn.node, 'returns self._data itself' + (', a copy iff copy is set' if has_copy else ''))
+
+    # _abs_get_val(name, flat)
+    fn = repo.func(VEC, 'Vector._abs_get_val')
+    chk = Chk(out, fn, '_abs_get_val')
+    g = cs_gate(chk)
+    if g is not None:
+        chk.ok(fn.node, f'{len(g)} path(s): `.real` unless under complex step')
+        chk = Chk(out, fn, '_abs_get_val')
+        ps = params(fn)
+        if len(ps) != 3:
+            chk.unsure(fn.node, 'signature is not (self, name, flat)')
+        else:
+            nm, fl = ps[1], ps[2]
+            base = f'self._views[{nm}]'
+            scal = _K(f'{base}.is_scalar')
+            for flat in (True, False):
+                try:
+                    sts = paths(fn, {_K(CS): True, _K(fl): flat})
+                except Unsup as u:
+                    chk.unsure(u.node, u.why)
+                    break
+                for st in sts:
+                    pc = dict(st.pc)
+                    r = _last_return(st.events)
+                    if r is None or r.a is None or any(e.kind != 'return' for e in st.events) or \
+                            set(pc) - {scal}:
+                        chk.unsure(fn.node, 'unrecognised path')
+                        break
+                    got = astx.dump(r.a)
+                    if flat:
+                        want = [_K(f'{base}.flat')]
+                    elif pc.get(scal) is True:
+                        want = [_K(f'{base}.view.item()')]
+                    elif pc.get(scal) is False:
+                        want = [_K(f'{base}.view')]
+                    else:
+                        want = [_K(f'{base}.view')]
+                    if got not in want:
+                        alt = {_K(f'{base}.flat'), _K(f'{base}.view'), _K(f'{base}.view.item()')}
+                        if got in alt or (isinstance(r.a, ast.Attribute) and r.a.attr in ('flat', 'view')):
+                            chk.bad(r.stmt, f'flat={flat}: returns `{astx.src(r.a)}`; the flat flag must select '
+                                    f'.flat and otherwise the shaped .view of variable `{nm}`', 'getval-select')
+                        else:
+                            chk.unsure(r.stmt, f'returns `{astx.src(r.a)}`')
+                        break
+            chk.ok(fn.node, f'flat -> _views[{nm}].flat, else .view (.item() for scalars)')
+
+    # _abs_set_val(name, val, idx)
+    fn = repo.func(VEC, 'Vector._abs_set_val')
+    chk = Chk(out, fn, '_abs_set_val')
+    g = cs_gate(chk)
+    if g is not None:
+        chk.ok(fn.node, f'{len(g)} path(s): stores through `.real` unless under complex step')
+        chk = Chk(out, fn, '_abs_set_val')
+        ps = params(fn)
+        if len(ps) != 4:
+            chk.unsure(fn.node, 'signature is not (self, name, val, idx)')
+        else:
+            for pc, (ev_on, _) in g.items():
+                st = [e for e in ev_on if e.kind == 'store']
+                if pc or len(st) != 1 or len(ev_on) != 1:
+                    kinds = [e.kind for e in ev_on]
+                    if 'store' not in kinds and 'aug' not in kinds and 'call' not in kinds:
+                        chk.bad(fn.node, 'does not store into the view (a rebinding has no effect)', 'setval-store')
+                    elif 'aug' in kinds:
+                        chk.bad(fn.node, 'accumulates instead of storing', 'setval-store')
+                    else:
+                        chk.unsure(fn.node, 'unrecognised path')
+                    break
+                t, v = st[0].a, st[0].b
+                if not isinstance(t, ast.Subscript):
+                    chk.bad(st[0].stmt, f'rebinds `{astx.src(t)}` instead of storing into the view', 'setval-store')
+                    break
+                if astx.dump(t.value) not in (_K(f'self._views[{ps[1]}].view'), _K(f'self._views[{ps[1]}].flat')):
+                    chk.unsure(st[0].stmt, f'target `{astx.src(t)}`')
+                    break
+                if not is_name(t.slice, ps[3]):
+                    if is_full(t.slice) or ps[3] not in astx.names(t.slice):
+                        chk.bad(st[0].stmt, f'ignores the index `{ps[3]}`', 'setval-index')
+                    else:
+                        chk.unsure(st[0].stmt, f'index `{astx.src(t.slice)}`')
+                    break
+                if not is_name(v, ps[2]):
+                    if ps[2] in astx.names(v):
+                        chk.unsure(st[0].stmt, f'value `{astx.src(v)}`')
+                    else:
+                        chk.bad(st[0].stmt, f'stores `{astx.src(v)}` instead of `{ps[2]}`', 'setval-value')
+                    break
+            chk.ok(fn.node, f'_views[{ps[1]}].view[{ps[3]}] = {ps[2]}')
